@@ -8,13 +8,13 @@ NA = {
     "C17": "concurrency: Kani/CBMC do not model threads and the shared state in question lives in C objects behind FFI; a bounded sequential harness would not address the quantifier (all interleavings) — solver-based checking of the real code cannot apply (DESIGN.md §4 C17)",
     "C18": "compile-time rejection of programs by rustc's type/trait checker is not a statement about any execution of the library; there is nothing to execute symbolically (DESIGN.md §4 C18)",
 }
-PENDING = {
-    "C03": "not claimed yet: transcript-conformance harnesses (spec reference vs. primitive-call log, AES-CTR counter width) are designed (DESIGN.md §4 C03) but not built",
-    "C07": "not claimed yet: PASERK transcript-conformance harnesses are designed (DESIGN.md §4 C07) but not built",
-    "C08": "not claimed yet: key codec harnesses are designed (DESIGN.md §4 C08) but not built",
-    "C10": "not claimed yet: header-table and cross-parser harnesses are designed (DESIGN.md §4 C10) but not built",
-    "C13": "not claimed yet: key-id transcript harnesses are designed (DESIGN.md §4 C13) but not built",
-    "C14": "not claimed yet: serde data-model harnesses are designed (DESIGN.md §4 C14) but not built",
+PENDING = {}
+PARTIAL = {
+    "C03": " PARTIAL CLAIM: decided for paseto-v4 local (full primitive-call transcript), the AES-CTR counter width of paseto-v3/v1 over the real ctr crate, and ECDSA twin acceptance in paseto-v3; the other backends' transcripts are not built (DESIGN.md 7.5).",
+    "C07": " PARTIAL CLAIM: decided for the AES-CTR counter width of the paseto-v3/v1 PIE path; the remaining PASERK transcripts are not built (DESIGN.md 7.5).",
+    "C14": " PARTIAL CLAIM at the serde data-model level (hand-written Serialize and visitor); JSON text and RFC 3339 text belong to serde_json and jiff (DESIGN.md 7.5).",
+    "C01": " paseto-v3-aws-lc: local tokens and the sealing side of public tokens only; paseto-v1 public (RSA) is not modelled (DESIGN.md 7.6).",
+    "C02": " paseto-v3-aws-lc public tokens and paseto-v1 public tokens are outside the claim (DESIGN.md 7.6).",
 }
 LEVEL_TEXT = {
     "C09": "bounded model checking of the repository's own base64.rs and FromStr/Display code by CBMC: the L0 kernels for every value of their argument types (no bound), decode/encode for every string of each stated length; a pass covers all inputs inside the bound, which sampling cannot give",
@@ -38,7 +38,7 @@ def main():
                 "evidence_file": "/verif/evidence/%s.json" % pid,
                 "replay_cmd_template": "./check %s --replay {path}" % pid,
                 "engine": "kani-cbmc" if P.level != "other" else "z3-cfg",
-                "level_claimed": {"category": P.level, "text": LEVEL_TEXT.get(pid, DEFAULT_TEXT), "design_ref": "DESIGN.md §4 %s" % pid},
+                "level_claimed": {"category": P.level, "text": LEVEL_TEXT.get(pid, DEFAULT_TEXT) + PARTIAL.get(pid, ""), "design_ref": "DESIGN.md §4 %s, §7.5" % pid},
                 "level_note": "; ".join(P.assumptions)[:900],
                 "technique": "solver-based checking of the real code: Kani/CBMC bounded model checking with symbolic inputs over ideal-primitive model crates, native replay of counterexamples" if P.level != "other"
                 else "solver-based checking: z3 SAT query over feature flags extracted from the real Cargo.toml/#[cfg] guards, cargo check replay",
